@@ -1,6 +1,4 @@
-\* quick exhaustive part: all programs of <= 3 commands over menu "q", every resolution of
-\* the latitude points enabled, keyword not permitted (dict, plain maildir).
-\* The check generates this text at run time (harness/checks/c10.py cfg_text).
+\* thorough exhaustive part: all programs of <= 3 commands over menu "t"
 SPECIFICATION Spec
 CONSTANTS
   KwPermitted = FALSE
@@ -9,7 +7,7 @@ CONSTANTS
   Inits = {"std"}
   MaxCmds = 3
   MaxUid = 9
-  Profile = "q"
+  Profile = "t"
   TwoLevel = FALSE
 INVARIANT TypeOK
 INVARIANT UidsBelowNext
